@@ -16,7 +16,7 @@ PREDICATES = ["is_logical_constraint", "is_arithmetic_constraint", "is_aggregati
               "is_requires_constraint", "is_excludes_constraint", "is_pseudocomplex_constraint",
               "is_strictcomplex_constraint", "get_features"]
 
-NAMES = ["A", "B", "C", "D", "E", "F"]
+NAMES = list("ABCDEFGHIJ")
 
 
 def check(pm: ProgramModel, ctx: Ctx) -> None:
